@@ -11,7 +11,7 @@
    of the emitted WHERE tokens, with the engine's value comparison [cmpf] and
    LIKE [likef] arbitrary. *)
 From Coq Require Import ZArith List Bool.
-From AK Require Import Common.Err gen.C15_Consts C15.Model C15.Spec C15.Lemmas.
+From AK Require Import Common.Sx Common.Err gen.C15_Consts C15.Model C15.Spec C15.Lemmas C15.Run C15.LemSession.
 Import ListNotations.
 Open Scope Z_scope.
 
@@ -166,3 +166,114 @@ Example ex_injection :
   = sql_of (build false ex_method None [ATup2 (Some ex_name) (VS (SStr [97]))] []).
 Proof. vm_compute. reflexivity. Qed.
 Print Assumptions ex_injection.
+
+(* ================================================================== *)
+(* Histories: the same SqlMethod / condition objects used for several requests.
+   The model keeps NO state between requests: a session is run step by step by a
+   map, a call step is exactly the single request [Query] of the theorems above
+   (whatever connection styles, arguments or other SqlMethod objects were used in
+   the steps before it).  That the IMPLEMENTATION has no such state either (no
+   placeholder style, statement text, record type, order or argument remembered
+   from an earlier request or from another object) is not a theorem: it is what
+   the correspondence checks on the session cases. *)
+Theorem session_requests_independent : forall ms st rows steps k s,
+  nth_error steps k = Some s ->
+  nth_error (run_steps ms st rows steps) k = Some (run_step ms st rows s).
+Proof. exact run_steps_nth. Qed.
+Print Assumptions session_requests_independent.
+
+Theorem session_call_is_query : forall ms st rows mi m mysql kw_ord args kw wr desc mtd,
+  nth_error ms mi = Some m ->
+  run_step ms st rows (SCall mi mysql kw_ord args kw wr desc mtd)
+  = run (Query mysql m kw_ord args kw wr st rows desc mtd).
+Proof. exact call_is_query. Qed.
+Print Assumptions session_call_is_query.
+
+(* hence, whatever came before it, the k-th request of a history executes the
+   statement of its own filters and returns the rows on which they are all TRUE *)
+Theorem session_rows_selected : forall ms st rows steps k mi m mysql kw_ord args kw desc mtd is,
+  nth_error steps k = Some (SCall mi mysql kw_ord args kw true desc mtd) ->
+  nth_error ms mi = Some m ->
+  meaning_all args kw = Some is ->
+  (forall r, In r rows ->
+     isem_and sqlite_cmp sqlite_like (static_of st r) (fun f => assoc_str f (r_cols r)) is <> None) ->
+  exists q, build mysql m kw_ord args kw = Ok q /\
+    q_params q = flat_map spec_params is /\
+    nth_error (run_steps ms st rows steps) k =
+    Some (SL [SL [sx_str (q_sql q); sx_list sx_pyval (q_params q)];
+              sx_res sx_outcome
+                (finish mtd
+                   (let ids := sort_Z (map r_id
+                                 (filter (fun r => is_T (isem_and sqlite_cmp sqlite_like (static_of st r)
+                                                           (fun f => assoc_str f (r_cols r)) is)) rows)) in
+                    if desc then rev ids else ids))]).
+Proof. exact session_rows_selected_l. Qed.
+Print Assumptions session_rows_selected.
+
+(* A condition object made earlier keeps the caller's list / set OBJECT.  If the
+   caller changes its contents afterwards ([g] = any rewriting of the contents of
+   sequence values), the kept object is the object `make` would build now from the
+   current values: no decision taken at creation (operator rewrite '=' -> IN,
+   validation, exception) depends on the contents.  This is what allows the
+   harness to hand the model a reference to a kept condition object as the filter
+   it was made from, with the current contents. *)
+Theorem prepared_condition_tracks_its_lists : forall g a,
+  make (mapseq_arg g a) = res_map (mapseq_cond g) (make a).
+Proof. exact make_mapseq. Qed.
+Print Assumptions prepared_condition_tracks_its_lists.
+
+Theorem prepared_conditions_in_request : forall g args,
+  make_all (map (mapseq_arg g) args) = res_map (map (mapseq_cond g)) (make_all args).
+Proof. exact make_all_mapseq. Qed.
+Print Assumptions prepared_conditions_in_request.
+
+(* ... and its text is computed from the list as it is at the request: emptiness
+   ("0"/"1" instead of IN ()) and the number of placeholders follow the current
+   contents, not those at creation *)
+Theorem prepared_condition_text_is_current : forall pt f op k l,
+  classify op text_groups 0 = Some 1%nat ->
+  cond_text pt (CField f op (VSeq k l)) =
+  if nonempty l then
+    bind (lookup_clause pt op) (fun cl =>
+    bind (lookup_clause pt ph_key) (fun ph =>
+      Ok ([PField f; PLit cl; PLit in_open]
+            ++ join_pieces [PLit in_sep] (map (fun _ => [PLit ph]) l) ++ [PLit in_close], map VS l)))
+  else Ok ([PLit (pick C15_Consts.empty_in op)], []).
+Proof. exact cond_text_current. Qed.
+Print Assumptions prepared_condition_text_is_current.
+
+(* non-vacuity: one SqlMethod, a kept `name = [..]` condition used on a '?' connection, then --
+   after the list was emptied and refilled -- on a '%s' connection: both styles, current contents *)
+Definition ex_kept (l : list scalar) : arg := ATup2 (Some ex_name) (VSeq KList l).
+Example ex_session :
+  run_steps [ex_method] [] ex_rows
+    [ SPrep (ex_kept []);
+      SCall 0 false None [ex_kept []] [] true false 0;
+      SCall 0 true None [ex_kept [SStr [98]; SStr [73;83;32;78;85;76;76]]] [(ex_qty, VS (SStr [73;83;32;78;85;76;76]))] true false 0;
+      SCall 0 false (Some None) [ex_kept [SStr [98]]] [] true false 0 ]
+  = [ SL [SZ 0; SL []];
+      run (Query false ex_method None [ex_kept []] [] true [] ex_rows false 0);
+      run (Query true ex_method None [ex_kept [SStr [98]; SStr [73;83;32;78;85;76;76]]]
+                 [(ex_qty, VS (SStr [73;83;32;78;85;76;76]))] true [] ex_rows false 0);
+      run (Query false ex_method (Some None) [ex_kept [SStr [98]]] [] true [] ex_rows false 0) ]
+  /\ make (ex_kept [SStr [98]]) = res_map (mapseq_cond (fun _ => [SStr [98]])) (make (ex_kept []))
+  /\ run (Query false ex_method (Some None) [ex_kept [SStr [98]]] [] true [] ex_rows false 0)
+     = SL [SL [sx_str (m_select ex_method ++ kw_where ++ ex_name ++ [32;73;78;32;40;63;41]); SL [sx_pyval (VS (SStr [98]))]];
+           SL [SZ 0; sx_outcome (ORows [2; 4])]].
+Proof. vm_compute. repeat split; reflexivity. Qed.
+Print Assumptions ex_session.
+
+(* a value spelled like an operator the compiler knows is data in every form *)
+Example ex_keyword_values :
+  let isnull := VS (SStr [73;83;32;78;85;76;76]) in         (* 'IS NULL' *)
+  let q1 := build false ex_method None [ATup2 (Some ex_name) isnull] [] in
+  let q2 := build false ex_method None [] [(ex_name, isnull)] in
+  let q3 := build false ex_method None [AOr [] [(ex_name, isnull)]] [] in
+  sql_of q1 = sql_of (build false ex_method None [ATup2 (Some ex_name) (VS (SStr [97]))] []) /\
+  sql_of q2 = sql_of q1 /\
+  match q1, q3 with
+  | Ok a, Ok c => q_params a = [isnull] /\ q_params c = [isnull]
+  | _, _ => False
+  end.
+Proof. vm_compute. repeat split; reflexivity. Qed.
+Print Assumptions ex_keyword_values.
